@@ -332,6 +332,10 @@ func c02decode(c *Ctx, opname string, b []byte, desc string) {
 		case k != "":
 			c.Outcome(opname + ":" + k)
 			c.Report(k, fmt.Sprintf("decoding %x (%s, context %s) panicked", trunc(string(b)), desc, [...]string{"first frame", "first frame, debug logger", "second frame after a valid bind"}[ctx]), map[string]string{"hex": hex.EncodeToString(b), "mutation": desc})
+		case err != nil && (strings.Contains(err.Error(), "runtime error") || strings.Contains(err.Error(), "nil pointer dereference")):
+			// a panic that was recovered somewhere below readRequest and dressed up as an error is still a decode panic
+			c.Outcome(opname + ":recovered-panic")
+			c.Report("a decode panic is recovered inside the decoder and returned as an error", fmt.Sprintf("decoding %x (%s): %v", trunc(string(b)), desc, err), map[string]string{"hex": hex.EncodeToString(b), "mutation": desc})
 		case err != nil:
 			c.Outcome(opname + ":error")
 		case ok:
